@@ -380,7 +380,7 @@ _TP4_CACHE = {}
 
 def tp4_eval(F):
     """(evaluations, round-trip failures, format failures, undecidable) over the finite domain"""
-    key = id(F)
+    key = (id(F), getattr(F, "tier", "quick"))
     if key in _TP4_CACHE:
         return _TP4_CACHE[key]
     import itertools
@@ -397,6 +397,11 @@ def tp4_eval(F):
     for n_, lo_, hi_ in ((4, 1, 3), (3, 4, 5), (2, 6, 15)):
         for L in range(n_ + 2, 2 * n_ + 2):
             domain.extend(itertools.product((lo_, hi_), repeat=L))
+    if getattr(F, "tier", "quick") == "thorough":
+        # deeper: every string of up to N+3 symbols for the two small bases, N+2 for base 16
+        for alpha, lens in ((4, (6, 7)), (6, (5, 6)), (16, (4,))):
+            for L in lens:
+                domain.extend(itertools.product(range(alpha), repeat=L))
     domain.extend([(16,), (3, 30), (255, 0, 1), (15, 16), (31, 31, 31, 31, 31)])          # symbols that cannot be packed
     seen = set()
     for x in domain:
